@@ -523,6 +523,57 @@ theorem chained_skip (v : Visitor σ) (vs : List (Visitor σ)) (n : Node) (s s1 
     (chained (v :: vs)).enter n s = (.skip n, s1) := by
   simp [chained, chainEnter, h]
 
+/-! ### the skip signal in a chain, with fix C18-W8 (`chained vs true`): the skip is the raiser's own -/
+
+private theorem chainEnterP_obs (vs rest : List (Visitor σ)) (hobs : ∀ v ∈ vs, Observer v) (n : Node) :
+    ∀ (entered : List (Visitor σ)) (sk : Bool) (s : σ),
+      chainEnterP (vs ++ rest) n (some (n, true)) entered sk s =
+        chainEnterP rest n (some (n, true)) (vs.reverse ++ entered) sk (vs.foldl (fun s v => (v.enter n s).2) s) := by
+  induction vs with
+  | nil => intro entered sk s; simp
+  | cons v vs ih =>
+    intro entered sk s
+    have hv := hobs v (by simp) n s
+    rcases hes : v.enter n s with ⟨act, s1⟩
+    rw [hes] at hv
+    simp only at hv
+    subst hv
+    simp only [List.cons_append, chainEnterP, hes, if_true, List.foldl_cons, List.reverse_cons, List.append_assoc,
+      List.singleton_append]
+    exact ih (fun w hw => hobs w (by simp [hw])) (v :: entered) sk s1
+
+/-- members that change nothing: same order of `enter` / `leave` as before the fix -/
+theorem chained_order_personal (vs : List (Visitor σ)) (hobs : ∀ v ∈ vs, Observer v) (n : Node) (s : σ) :
+    (chained vs true).enter n s = (.keep n, vs.foldl (fun s v => (v.enter n s).2) s) := by
+  have := chainEnterP_obs vs [] hobs n [] false s
+  simp only [List.append_nil] at this
+  simp [chained, this, chainEnterP]
+
+/-- **chained_skip_personal** — a member `w` raising `SkipNode` between members that change nothing: EVERY member
+    enters the node, in order; every member except the raiser is left, in reverse order; the chain raises `SkipNode`
+    (so the children are visited by nobody and the chain's own `leave` is not called): the skip suppresses only the
+    node's children and the raiser's leave call. -/
+theorem chained_skip_personal (pre post : List (Visitor σ)) (w : Visitor σ)
+    (hpre : ∀ v ∈ pre, Observer v) (hpost : ∀ v ∈ post, Observer v) (n : Node) (s : σ)
+    (hw : ∀ s, (w.enter n s).1 = .skip n) :
+    (chained (pre ++ w :: post) true).enter n s =
+      (.skip n,
+        (pre ++ post).reverse.foldl (fun s v => v.leave n s)
+          (post.foldl (fun s v => (v.enter n s).2)
+            (w.enter n (pre.foldl (fun s v => (v.enter n s).2) s)).2)) := by
+  simp only [chained, if_true]
+  rw [chainEnterP_obs pre (w :: post) hpre n [] false s]
+  have h1 := hw (pre.foldl (fun s v => (v.enter n s).2) s)
+  rcases hes : w.enter n (pre.foldl (fun s v => (v.enter n s).2) s) with ⟨act, s1⟩
+  rw [hes] at h1
+  simp only at h1
+  subst h1
+  simp only [chainEnterP, hes, if_true, List.append_nil]
+  have h2 := chainEnterP_obs post [] hpost n pre.reverse true s1
+  simp only [List.append_nil] at h2
+  rw [h2]
+  simp [chainEnterP, List.reverse_append]
+
 /-- the full expectation on chains: what a member decides for a node is what the chain does with it -/
 def ChainFaithful : Prop :=
   ∀ (v : Visitor Unit) (n : Node), ((chained [v]).enter n ()).1 = (v.enter n ()).1
